@@ -98,8 +98,8 @@ MUTANTS = [
     ("C15", "to_g2o_sorts_vertices", G, "            for v in self._vertices:\n                f.write(v.to_g2o())", "            self._vertices.sort(key=lambda v: v.id)\n            for v in self._vertices:\n                f.write(v.to_g2o())"),
     # ------------------------------------------------------------------ C13
     ("C13", "vertex_se2_six_decimals", VX, "            return \"VERTEX_SE2 {} {} {} {}\\n\".format(", "            return \"VERTEX_SE2 {} {:.6f} {:.6f} {:.6f}\\n\".format("),
-    ("C13", "edge_se2_info_15g", EO, "self.estimate[2]) + \" \".join([str(x) for x in self.information[np.triu_indices(3, 0)]])", "self.estimate[2]) + \" \".join([\"{:.15g}\".format(x) for x in self.information[np.triu_indices(3, 0)]])"),
-    ("C13", "landmark_info_repr", EL, "self.estimate[2]) + \" \".join([str(x) for x in self.information[np.triu_indices(3, 0)]])", "self.estimate[2]) + \" \".join([repr(x) for x in self.information[np.triu_indices(3, 0)]])"),
+    ("C13", "edge_se2_info_15g", EO, "self.estimate[2]) + \" \".join([str(float(x)) for x in self.information[np.triu_indices(3, 0)]])", "self.estimate[2]) + \" \".join([\"{:.15g}\".format(x) for x in self.information[np.triu_indices(3, 0)]])"),
+    ("C13", "landmark_info_repr", EL, "self.estimate[2]) + \" \".join([str(float(x)) for x in self.information[np.triu_indices(3, 0)]])", "self.estimate[2]) + \" \".join([repr(x) for x in self.information[np.triu_indices(3, 0)]])"),
     ("C13", "edge_se3_info_column_major", EO, "self.information[np.triu_indices(6, 0)]", "self.information[np.tril_indices(6, 0)]"),
     ("C13", "trackxyz_offset_id_dropped", EL, "self.vertex_ids[1], self.offset_id, self.estimate[0]", "self.vertex_ids[1], 0, self.estimate[0]"),
     ("C13", "params_written_after_edges", G,
@@ -151,6 +151,11 @@ MUTANTS = [
      "        return PoseSE2([(self[0] - other[0]) * np.cos(other[2]) + (self[1] - other[1]) * np.sin(other[2]),\n                        (other[0] - self[0]) * np.sin(other[2]) + (self[1] - other[1]) * np.cos(other[2])],\n                       self[2] - other[2])",
      "        return np.array([(self[0] - other[0]) * np.cos(other[2]) + (self[1] - other[1]) * np.sin(other[2]),\n                         (other[0] - self[0]) * np.sin(other[2]) + (self[1] - other[1]) * np.cos(other[2]),\n                         self[2] - other[2]]).view(PoseSE2)"),
     ("C11", "from_matrix_acos", SE2, "math.atan2(matrix[1, 0], matrix[0, 0]))", "math.copysign(math.acos(max(-1.0, min(1.0, matrix[0, 0]))), matrix[1, 0]))"),
+    ("C11", "revert_F6_wrap_in_input_precision", UT, "    angle = np.float64(angle)\n", "    pass\n"),
+    ("C14", "revert_F8_inrange_angle_rewrapped", UT, "    if np.ndim(angle) == 0 and -np.pi <= angle < np.pi:", "    if False:"),
+    ("C15", "revert_F8_inrange_angle_rewrapped", UT, "    if np.ndim(angle) == 0 and -np.pi <= angle < np.pi:", "    if False:"),
+    ("C13", "revert_F8_inrange_angle_rewrapped", UT, "    if np.ndim(angle) == 0 and -np.pi <= angle < np.pi:", "    if False:"),
+    ("C13", "revert_F7_information_str_of_numpy_scalar", EO, "\" \".join([str(float(x)) for x in self.information[np.triu_indices(6, 0)]])", "\" \".join([str(x) for x in self.information[np.triu_indices(6, 0)]])"),
 ]
 
 
